@@ -563,9 +563,26 @@ def run_sync_case(kind, elems, f, exc, mode, own_loop):
 
 
 # --------------------------------------------------------------------------- enumeration
+class _EqualsEverything:
+    """An ordinary element whose __eq__ says yes to anything (like unittest.mock.ANY): only an IDENTITY test
+    against the private sentinel tells it from the end-of-stream marker."""
+    def __eq__(self, other):
+        return True
+
+    def __ne__(self, other):
+        return False
+
+    __hash__ = object.__hash__
+
+    def __repr__(self):
+        return '<equals-everything>'
+
+
 def pools():
     x = _Obj('X')
+    anyv = _EqualsEverything()
     return [
+        ('equals-everything', [1, anyv, 3, anyv, 5, 6]),
         ('ints', [0, 1, 2, 3, 4, 5]),
         ('falsy/dups', [None, 0, None, '', False, None]),
         ('sentinel-like', ['_DONE', StopIteration(), _Obj('object'), StopAsyncIteration(), Ellipsis, 'DONE']),
@@ -621,6 +638,8 @@ def run(thorough, wd):
         for pname, pool in all_pools:
             if kind == 'range' and pname != 'ints':
                 continue
+            if kind == 'itercall' and pname == 'equals-everything':
+                continue      # iter(callable, sentinel) itself compares with ==: a harness artefact, not the bridge
             if not thorough and pname == 'same-object' and kind not in ('cls', 'gen'):
                 continue
             for length, f in shapes(maxlen, can_fail):
